@@ -225,16 +225,20 @@ Definition trace_of (o : op) (s : store) : list event :=
   | None => [Rollback; Ack]
   end.
 
-(* the same handler when the database refuses its COMMIT: the exception leaves the handler and the batch item is answered
-   with a failure.  AS THE CODE IS, nothing rolls the DBAPI transaction back (SQLAlchemy marks its root transaction closed
-   after the failed COMMIT, Session.close() and the pool's reset-on-return then skip the ROLLBACK): the changes stay
-   PENDING on the pooled connection until the process dies or the next request ends its transaction *)
+(* the same handler when the database refuses its COMMIT: the exception leaves the handler, the batch item is answered
+   with a failure and _process_batch rolls the data session back (`if error_occurred: self._data_session.rollback()`,
+   /repo 52cb625).  Before that repair nothing rolled the DBAPI transaction back: see old_failed_commit_trace. *)
 Definition trace_of_failed_commit (o : op) (s : store) : list event :=
   match writes_of o s with
   | Some [] => [Commit; Ack]                  (* nothing to write: the COMMIT needs no write lock and cannot be refused *)
-  | Some ws => map Write ws ++ [CommitFail; Ack]
+  | Some ws => map Write ws ++ [CommitFail; Rollback; Ack]
   | None => [Rollback; Ack]
   end.
+
+(* the run of a refused COMMIT as the code was before 52cb625 (kept as the regression witness of the fixed finding):
+   SQLAlchemy marks its root transaction closed after the failed COMMIT, Session.close() and the pool's reset-on-return
+   skip the ROLLBACK, the changes stay PENDING on the pooled connection *)
+Definition old_failed_commit_trace (ws : list write) : list event := map Write ws ++ [CommitFail; Ack].
 
 (* did the operation answer SUCCESS in that run? *)
 Definition failed_commit_acks_success (o : op) (s : store) : bool :=
